@@ -649,9 +649,11 @@ def execute_plan(ctx, rng, plan):
                 report(ctx, 'message does not hold the assigned values (a re-assigned key keeps its position)', dict(rep, finding='build'))
             if a_build is not None and a_build != 'ok ' + sx(fc.msg_sx(m_impl)):
                 ctx.disagree(f'fix.build: model {a_build[:100]} vs implementation {sx(fc.msg_sx(m_impl))[:100]}', rep)
+            fc.reregister(built)
             r = impl_rt(by_name, msg)
             if dom:
                 report_shrunk(ctx, mdefs, d, m, msg, r)
+                fc.reregister(built)
             if a_rt is not None:
                 mine, theirs = impl_line(by_name, r), model_line_without_eqd(a_rt)
                 if ' stale-class ' in mine and theirs.endswith('dec-err key'):
@@ -720,11 +722,18 @@ def execute_plan(ctx, rng, plan):
                 ctx.disagree(f'fix.dec ({kind}): model {a_dec[:140]} vs implementation {mine[:140]}', rep)
 
 
+def run_chunk(ctx, p):
+    """one batch of generated dictionaries, in a fresh process (see fix_common.run_chunks)"""
+    common.use_repo()
+    plan = [gen_entry(ctx.rng, p['first'] + i, p['n_msg'], p['n_mal'], p['n_dec']) for i in range(p['count'])]
+    execute_plan(ctx, ctx.rng, plan)
+
+
 def run(ctx):
     rng = ctx.rng
     quick = ctx.tier == 'quick'
     ctx.notes.append('implementation group equality: ' + ('plain-dict (repaired)' if eq_is_repaired() else 'OrderedDict (order sensitive, known finding)'))
-    n_dict = 250 if quick else 7000
+    n_dict = 1200 if quick else 12000
     n_msg = 8 if quick else 12
     n_mal = 4 if quick else 6
     n_dec = 12 if quick else 20
@@ -753,13 +762,11 @@ def run(ctx):
             wit = (d, m)
         except Exception as e:  # noqa
             ctx.notes.append(f'witness not available from the driver: {e!r}')
-    execute_plan(ctx, rng, plan)                      # corpus + witness first
-    CHUNK = 250
-    for start in range(0, n_dict, CHUNK):
-        plan = []
-        for i in range(start, min(n_dict, start + CHUNK)):
-            plan.append(gen_entry(rng, i, n_msg, n_mal, n_dec))
-        execute_plan(ctx, rng, plan)
+    execute_plan(ctx, rng, plan)                      # corpus + witness first (in this process)
+    per = 60 if quick else 250                        # dictionaries per fresh worker process
+    payloads = [{'first': s0, 'count': min(per, n_dict - s0), 'n_msg': n_msg, 'n_mal': n_mal, 'n_dec': n_dec}
+                for s0 in range(0, n_dict, per)]
+    fc.run_chunks(ctx, 'c13', payloads)
     if wit is not None:
         ctx.notes.append('Lean witness Witness.C13 (fix.witness) replayed on the implementation')
 
